@@ -1966,7 +1966,7 @@ def uuid_generator_keeps_state(ctx):
                   % (v["name"], (X(v["init"])[:80] if v.get("init") is not None and v.get("init", -1) >= 0 else "a default seed")))
 
 
-def failure_tests_see_the_sign(ctx, tag, roots, floor=3):
+def failure_tests_see_the_sign(ctx, tag, roots, floor=2):
     """A failed system call is recognised by its negative result.  In every function the given roots reach, a test `x < 0` (or `0 > x`)
     is made on a signed value: on an unsigned one (the result was stored in a size_t, or cast on the way) the test is never true, the
     error return behind it is dead and a failed write is reported as a success.  A contradiction rule - the code states the belief
@@ -1995,6 +1995,20 @@ def failure_tests_see_the_sign(ctx, tag, roots, floor=3):
                       "%s tests `%s < 0`, but the value is unsigned (%s) when it is compared: the test is never true, so the failure it is "
                       "meant to recognise - a system call returning -1 - is taken for a success and the error path behind it is dead" % (
                           f.pq, f.text(val), f.nodes[val].get("type") or src.get("type")))
+        # ... and the result of a read / write call (ssize_t: the count, or -1) is not kept in an unsigned variable: -1 becomes the largest
+        # value there is, so `written < size` is false for a failed write just as `written < 0` is
+        for d in f.all("decl"):
+            for v in f.nodes[d].get("vars", []):
+                ini = v.get("init")
+                if ini is None or ini < 0 or not (v.get("tw") or "").startswith("u"):
+                    continue
+                src = f.nodes[f.strip(ini)]
+                if src["k"] == "call" and (src.get("tw") or "").startswith("i") and re.search(r"(^|::)(writeFull|readFull|sendFull|write|read|send|recv|pwrite|pread)$", src.get("callee") or ""):
+                    n += 1
+                    ctx.use(f)
+                    ctx.check(False, "failure-test-sees-the-sign:%s:%s" % (short(f), v["name"]), "E-TYPE contradiction", f.loc(d), "an I/O result is kept signed",
+                              "%s keeps the result of %s in the unsigned '%s' (%s): the -1 of a failed call becomes the largest value, every later test "
+                              "(`< 0`, `< size`) takes the failure for a complete transfer and the error path is dead" % (f.pq, src.get("callee"), v["name"], v.get("type")))
     ctx.counters["sign_tests"] = n
     ctx.floor("sign_tests", floor, "tests of a result for being negative on the kill path")
 
